@@ -256,6 +256,17 @@ where
         .ok_or(OpError::IncompatibleInputShapes("Cannot broadcast shapes"))?;
     let out_shape = &[out_prefix.as_slice(), &[a_rows, b_cols]].concat();
 
+    // Remove the dimensions that were added to vector inputs from the output.
+    let remove_vector_axes = |mut output: Tensor<OutT>| {
+        if a_is_vec {
+            output.remove_axis(output.ndim() - 2);
+        }
+        if b_is_vec {
+            output.remove_axis(output.ndim() - 1);
+        }
+        output
+    };
+
     // A batched matrix multiplication with `[A, M, K] x [K, N]`, where `A` can
     // consist of multiple dimensions, can be converted to a non-batched matmul
     // by reshaping the inputs as `[A * M, K]` * `[K, N]`, and then reshaping
@@ -293,13 +304,13 @@ where
             b_quant,
         )?;
         output.reshape(out_shape);
-        return Ok(output);
+        return Ok(remove_vector_axes(output));
     }
 
     // Early exit if the output is empty.
     if out_shape.iter().product::<usize>() == 0 {
         // Don't need to use the pool here since the buffer has zero size.
-        return Ok(Tensor::zeros(out_shape));
+        return Ok(remove_vector_axes(Tensor::zeros(out_shape)));
     }
 
     let a_broadcast_shape = [out_prefix.as_slice(), &[a_rows, a_cols]].concat();
@@ -373,15 +384,8 @@ where
         .unwrap()
     });
 
-    let mut output = Tensor::from_data(out_shape, out_data);
-    if a_is_vec {
-        output.remove_axis(output.ndim() - 2);
-    }
-    if b_is_vec {
-        output.remove_axis(output.ndim() - 1);
-    }
-
-    Ok(output)
+    let output = Tensor::from_data(out_shape, out_data);
+    Ok(remove_vector_axes(output))
 }
 
 #[derive(Clone, Debug)]
